@@ -29,6 +29,7 @@ VARIANTS = {
     "asan-vblas": dict(san=["-O1", "-fsanitize=address,undefined", "-fno-sanitize-recover=undefined"], defs=["-DUSE_VENDOR_BLAS"], vblas=True),
     "asan-i64": dict(san=["-O1", "-fsanitize=address,undefined", "-fno-sanitize-recover=undefined"], defs=["-DXSDK_INDEX_SIZE=64"], vblas=False),
     "tsan-i64": dict(san=["-O1", "-fsanitize=thread"], defs=["-DXSDK_INDEX_SIZE=64"], vblas=False),
+    "dbg": dict(san=["-O0", "-fsanitize=address"], defs=[], vblas=False),
     "plain": dict(san=["-O2"], defs=[], vblas=False, nocov=True),
 }
 
